@@ -212,6 +212,9 @@ def _ge_phenotype(repo, defs):
     # the guard comes before the genotypic values are computed and before any draw
     pre = body[:body.index(env_loop)]
     pre_txt = [ast.unparse(s) for s in pre]
+    for must in ("check_ndarray_len_gteq(self.nrep, 'nrep', self.nenv)", "gvmat = self.gpmod.gegv(pgmat)"):
+        if pre_txt.count(must) != 1:
+            raise U("phenotype: expected exactly one top-level statement `%s` before the loop (a cached / conditional computation is outside the fragment)" % must)
     ig, iv = pre_txt.index("check_ndarray_len_gteq(self.nrep, 'nrep', self.nenv)"), pre_txt.index("gvmat = self.gpmod.gegv(pgmat)")
     if not ig < iv:
         raise U("phenotype: the nrep length check no longer precedes the computation")
